@@ -129,7 +129,7 @@ func runRebase(r *core.Run) {
 				case 0:
 					delta = linConst(0)
 				case 1:
-					delta = linAtom(z + "." + f).add(linOf(ss[0].Val), -1)
+					delta = linAtom(z+"."+f).add(linOf(ss[0].Val), -1)
 					if !loadsPrecedeStores(fn, ss[0], z, cf) {
 						r.Fail(key+" uses old values", ss[0].Pos(), "the new value is computed from a coordinate field that was already overwritten")
 						continue
@@ -210,7 +210,7 @@ func runStreamErr(r *core.Run) {
 		return
 	}
 	z := fn.Params[0].Name()
-	remaining := linAtom("len(" + z + ".buf)").add(linAtom(z+".pos"), -1) // len - pos
+	remaining := linAtom("len("+z+".buf)").add(linAtom(z+".pos"), -1) // len - pos
 	nNil, nErr := 0, 0
 	for _, b := range fn.Blocks {
 		ret, ok := lastInstr(b).(*ssa.Return)
